@@ -60,7 +60,7 @@ class Source:
 
     __slots__ = ("name", "prng", "policy", "script", "tail", "log", "budget", "abort_at",
                  "count", "last_int", "planned", "shuffle_calls", "sites", "aborted",
-                 "extreme_hits", "sticky_hits", "site_counts", "op_count")
+                 "extreme_hits", "sticky_hits", "site_counts", "op_count", "wide")
 
     def __init__(self, name, prng, policy=None, script=None, tail="policy", budget=None,
                  abort_at=None):
@@ -83,6 +83,7 @@ class Source:
         self.extreme_hits = 0
         self.sticky_hits = 0
         self.site_counts = {}
+        self.wide = 0           # integer decisions with at least two possible answers
 
     # -- control ---------------------------------------------------------------------------
     def restart(self):
@@ -125,6 +126,8 @@ class Source:
 
     def next_int(self, n, site):
         self._tick(site)
+        if n > 1:
+            self.wide += 1
         has, v = self._scripted()
         if has:
             if isinstance(v, float):
